@@ -243,7 +243,13 @@ pub struct Q {
 #[derive(Clone, Debug, Default, PartialEq, Eq, Serialize, Deserialize)]
 pub struct MsgSpec {
     pub id: u16,
+    /// the 16-bit flags word (QR, opcode, AA, TC, RD, RA, Z, AD, CD, low RCODE bits)
     pub flags: u16,
+    /// full (up to 12-bit) response code to set through the packet API when non-zero; values
+    /// above 15 need an OPT record to be carried in full (used by wire-sim only; the reference
+    /// encoder ignores it)
+    #[serde(default)]
+    pub ext_rcode: u16,
     pub questions: Vec<Q>,
     pub answers: Vec<Rec>,
     pub authority: Vec<Rec>,
